@@ -29,9 +29,10 @@ NoVer == [seq |-> 0, tx |-> -1, cid |-> 0, key |-> ""]
 
 VARIABLES seq, ncid, reg, regOrder, txs, all, crec, disk, frec, nextTx, ended, stale, steps, quiet,
           rdr,          \* the reader somebody holds open (GetReader returned, not yet read to the end), or NoRdr
+          wrs, nextW,   \* the files somebody holds open for writing (Create returned, not yet closed): <<[id, t, k]>>; next handle id
           g, devFired, hist
 
-mech  == <<seq, ncid, reg, regOrder, txs, all, crec, disk, frec, nextTx, ended, stale, steps, quiet, rdr>>
+mech  == <<seq, ncid, reg, regOrder, txs, all, crec, disk, frec, nextTx, ended, stale, steps, quiet, rdr, wrs, nextW>>
 NoRdr == [t |-> -2, k |-> "", v |-> 0, p |-> 0]
 ghost == <<g, devFired>>
 vars  == <<mech, ghost, hist>>
@@ -55,7 +56,7 @@ Init ==
   /\ txs = TLCEval(Main :> EmptyStore)
   /\ all = EmptyStore
   /\ crec = {} /\ disk = {} /\ frec = EmptyF
-  /\ nextTx = 1 /\ ended = {} /\ stale = {} /\ steps = 0 /\ quiet = TRUE /\ rdr = NoRdr
+  /\ nextTx = 1 /\ ended = {} /\ stale = {} /\ steps = 0 /\ quiet = TRUE /\ rdr = NoRdr /\ wrs = <<>> /\ nextW = 1
   /\ g = GInit /\ devFired = {}
   /\ hist = <<>>
 
@@ -76,7 +77,7 @@ ObsNext == {[t |-> t, k |-> k, v |-> MechRead(t, k)', p |-> GRead(g', t, k)] :
               t \in (DOMAIN reg') \cup {Main}, k \in Keys}
 Log(op, args, res, pres) ==
   hist' = Append(hist, [op |-> op, a |-> args, res |-> res, pres |-> pres, obs |-> ObsNext,
-                        nf |-> Cardinality(disk'), nfr |-> Cardinality(DOMAIN frec'),
+                        nf |-> Cardinality(disk') + Len(wrs'), nfr |-> Cardinality(DOMAIN frec'),
                         ncr |-> Cardinality(crec'), q |-> quiet', dev |-> devFired'])
 
 (* ---------- cleaner: usecase/cleaner/delete_files.go deleteFile ---------- *)
@@ -157,9 +158,10 @@ EndTx(t) ==
   /\ ended' = ended \cup {t}
 
 (* usecase/transaction/commit.go + usecase/core/update_tx.go *)
+WritersOf(t) == {i \in 1..Len(wrs) : wrs[i].t = t}
 Commit(t) ==
   /\ "commit" \in Ops
-  /\ t \in Open
+  /\ t \in Open /\ WritersOf(t) = {}
   /\ EndTx(t)
   /\ g' = GCommit(g, t)
   /\ quiet' = FALSE
@@ -202,7 +204,7 @@ Commit(t) ==
 (* usecase/transaction/rollback.go + usecase/core/delete_tx.go *)
 Rollback(t) ==
   /\ "rollback" \in Ops
-  /\ t \in Open
+  /\ t \in Open /\ WritersOf(t) = {}
   /\ EndTx(t)
   /\ g' = GRollback(g, t)
   /\ quiet' = FALSE
@@ -233,7 +235,7 @@ GC ==
         /\ txs' = TLCEval([txs EXCEPT ![Main] = Fn(Keys, LAMBDA k : SubSeq(m[k], nc[k] + 1, Len(m[k])))])
         /\ all' = Fn(Keys, LAMBDA k : FilterSeq(all[k], LAMBDA v : v \notin dead))
         /\ crec' = eff[1] /\ disk' = eff[2] /\ frec' = eff[3]
-  /\ quiet' = (Open = {} /\ DOMAIN txs = {Main})
+  /\ quiet' = (Open = {} /\ DOMAIN txs = {Main} /\ wrs = <<>>)
   /\ UNCHANGED <<ncid, reg, regOrder, nextTx, ended, stale, ghost>>
   /\ Log("gc", [x |-> 0], "ok", "ok")
 
@@ -244,7 +246,7 @@ Winner(k) == IF MainRecs(k) = {} THEN 0
              ELSE CHOOSE c \in MainRecs(k) : \A d \in MainRecs(k) : frec[d].seq <= frec[c].seq
 Reopen ==
   /\ "reopen" \in Ops
-  /\ rdr = NoRdr            \* a graceful stop of the server waits for open streams
+  /\ rdr = NoRdr /\ wrs = <<>>       \* a graceful stop of the server waits for open streams
   /\ LET winners == {Winner(k) : k \in Keys} \ {0}
          losers == DOMAIN frec \ winners
          loserVers == {[seq |-> frec[c].seq, tx |-> frec[c].tx, cid |-> c, key |-> frec[c].key] : c \in losers}
@@ -313,8 +315,32 @@ RFinish ==
   /\ Ident
   /\ Log("rfinish", [t |-> rdr.t, k |-> rdr.k, c |-> rdr.p], "ok", "ok")
 
+(* ---------- files held open for writing across other operations ---------- *)
+(* Create returns a file; nothing of it exists for anybody until Close has returned, which is then a Set of what was  *)
+(* written. Several files may be open at once, also through the gRPC client, where each is an open stream.            *)
+MaxWriters == 3
+WOpen(t, k) ==
+  /\ "writer" \in Ops
+  /\ Len(wrs) < MaxWriters
+  /\ wrs' = Append(wrs, [id |-> nextW, t |-> t, k |-> k]) /\ nextW' = nextW + 1
+  /\ quiet' = FALSE                  \* an upload in progress: its content file may exist already
+  /\ UNCHANGED <<seq, ncid, reg, regOrder, txs, all, crec, disk, frec, nextTx, ended, stale, ghost>>
+  /\ Log("wopen", [t |-> t, k |-> k, c |-> nextW], "ok", "ok")
+WClose(i) ==
+  /\ "writer" \in Ops
+  /\ LET w == wrs[i] IN
+     /\ MechStore(w.t, w.k, TRUE)
+     /\ g' = GWrite(g, w.t, w.k, ncid + 1)
+     /\ quiet' = FALSE
+     /\ wrs' = SubSeq(wrs, 1, i - 1) \o SubSeq(wrs, i + 1, Len(wrs)) /\ nextW' = nextW
+     /\ UNCHANGED <<reg, regOrder, nextTx, ended, stale, devFired>>
+     /\ Log("wclose", [t |-> w.t, k |-> w.k, c |-> ncid + 1, l |-> "", h |-> w.id], "ok", "ok")
+
 Step(A) == steps < MaxSteps /\ steps' = steps + 1 /\ A
-Keep(A) == Step(A) /\ UNCHANGED rdr
+(* the frame comes first: Log reads wrs' *)
+Keep(A) == UNCHANGED <<rdr, wrs, nextW>> /\ Step(A)
+KeepW(A) == UNCHANGED <<wrs, nextW>> /\ Step(A)
+KeepR(A) == UNCHANGED rdr /\ Step(A)
 
 Next ==
   \/ \E t \in Writers, k \in Keys : Keep(Set(t, k))
@@ -332,8 +358,10 @@ Next ==
   \/ \E t \in LateHandles : Keep(LateKeys(t))
   \/ \E t \in LateHandles : Keep(LateCommit(t))
   \/ \E t \in LateHandles : Keep(LateRollback(t))
-  \/ \E t \in Readers, k \in Keys : Step(ROpen(t, k))
-  \/ Step(RFinish)
+  \/ \E t \in Readers, k \in Keys : KeepW(ROpen(t, k))
+  \/ KeepW(RFinish)
+  \/ \E t \in Writers, k \in Keys : KeepR(WOpen(t, k))
+  \/ \E i \in 1..Len(wrs) : KeepR(WClose(i))
 
 Spec == Init /\ [][Next]_vars
 
@@ -431,6 +459,7 @@ RankView == <<
   {<<RC(c), RS(frec[c].seq), frec[c].tx, frec[c].key>> : c \in DOMAIN frec},
   nextTx, ended, stale, steps, quiet, devFired,
   [t |-> rdr.t, k |-> rdr.k, v |-> RC(rdr.v), p |-> RC(rdr.p)],
+  [i \in 1..Len(wrs) |-> [t |-> wrs[i].t, k |-> wrs[i].k]],
   [k \in Keys |-> NG(g.cm[k])],
   [t \in DOMAIN g.tx |-> [level |-> g.tx[t].level, begin |-> RT(g.tx[t].begin),
                           own |-> [k \in Keys |-> NG(g.tx[t].own[k])],
